@@ -569,7 +569,21 @@ def run_points(case):
                         c.bad(sub + f"/point{pi}/stress", "stress of a point in a two-point array vs the same point evaluated alone with its own history", float(e), 0, 1e-10)
                     Aa = np.broadcast_to(np.asarray(A), np.asarray(A).shape[:4] + shape)[(Ellipsis,) + ix]
                     e = np.abs(Aa - np.broadcast_to(As, As.shape[:4] + (1, 1))[..., 0, 0]).max() / max(np.abs(As).max(), 1e-3)
-                    if e > 1e-10:
+                    # (plasticity: a repeated stretch is neutral loading -- the trial state sits on the yield surface up to
+                    #  round-off and the elastic / elasto-plastic branch of the tangent is decided by the last bit; both answers
+                    #  are tangents at the kink.  Found under VERIF_SEED=2: false alarm of the first version of this clause)
+                    kink = False
+                    if item == "plasticity":
+                        # neutral loading: the state did not change in this increment and the updated stress is ON the yield
+                        # surface (repeated stretch, or re-loading exactly to the state unloading started from)
+                        a_new, a_old = float(svs[0, 0, 0]), float(single[hp[:-1]][0, 0, 0])
+                        sg = svs[-9:, 0, 0].reshape(3, 3)
+                        dv = sg - np.trace(sg) / 3 * np.eye(3)
+                        fy = np.sqrt((dv * dv).sum()) - np.sqrt(2 / 3) * (0.2 + 0.4 * a_new)
+                        kink = abs(a_new - a_old) <= 1e-12 and abs(fy) <= 1e-9
+                        if kink:
+                            c.outcomes.add("plasticity-neutral-loading-tangent-not-compared")
+                    if e > 1e-10 and not kink:
                         c.bad(sub + f"/point{pi}/tangent", "tangent of a point in a two-point array vs the same point evaluated alone", float(e), 0, 1e-10)
                     e = np.abs(np.asarray(sv)[(Ellipsis,) + ix] - svs[..., 0, 0]).max() / max(np.abs(svs).max(), 1e-3)
                     if e > 1e-10:
